@@ -389,6 +389,7 @@ pub fn small_instance(acts: &[SmallAct], p: (u64, u64, u64, bool)) -> Inst {
         max_distance: Some(100_000),
         costs: Costs { staff: 1, service: 1, maintenance: Some(1), dead_head: 2, idle: 1 },
         nulls: false,
+        day_limits: Vec::new(),
     }
 }
 
